@@ -285,7 +285,18 @@ func (bs *blockState) store(p *Ptr, v Val, pos token.Pos) {
 		return
 	}
 	// expected sort at the path
-	vt := bs.tm(v, bs.fr.pathSort(cur.Sort, p.path), pos)
+	want := bs.fr.pathSort(cur.Sort, p.path)
+	var vt Term
+	if isOpaqueSort(want) {
+		// interface / function / map valued slots: contents are not modelled
+		if t, ok := v.(Term); ok && t.Sort == want {
+			vt = t
+		} else {
+			vt = ex.fresh("boxed", want)
+		}
+	} else {
+		vt = bs.tm(v, want, pos)
+	}
 	nt := bs.fr.updatePath(cur, p.path, vt, pos)
 	bs.st.cells[p.cell] = ex.define("c_"+p.cell.name, nt)
 }
@@ -955,4 +966,8 @@ func simplifyAdd(a, b Term) Term {
 		return a
 	}
 	return Term{"(+ " + a.S + " " + b.S + ")", "Int"}
+}
+
+func isOpaqueSort(s string) bool {
+	return s == "Iface" || s == "Func" || strings.HasPrefix(s, "Opaque_") || strings.HasPrefix(s, "Map_")
 }
